@@ -238,8 +238,13 @@ func (x *c16Lab) attempt(cse c16Case, noCleanup bool) (succeeded bool) {
 	// there is one (the same root cause shows at every fault point then) and the
 	// fault point otherwise
 	cause := cse.faultPoint()
-	if i := strings.IndexByte(cse.Basis, ':'); i >= 0 && cse.Fault.Op != "dial-fail" {
-		cause = "basis-" + cse.Basis[:i]
+	if cse.Fault.Op != "dial-fail" {
+		switch {
+		case strings.HasPrefix(cse.Basis, "fork"), cse.Fault.Dir == "R" && cse.Fault.Msg == 0 && strings.HasPrefix(cse.Fault.Path, "Basis"):
+			cause = "renter-basis-unusable-for-host"
+		case strings.HasPrefix(cse.Basis, "behind"):
+			cause = "renter-basis-behind"
+		}
 	}
 	viol := func(class, what string, detail any) {
 		r.Violation(fmt.Sprintf("%s:%s:%s", class, x.rpc, cause), what, cse, detail)
@@ -425,7 +430,20 @@ func (x *c16Lab) attempt(cse c16Case, noCleanup bool) (succeeded bool) {
 			}
 		}
 		if _, err := l.HostNode.CM.AddV2PoolTransactions(res.Set.Basis, res.Set.Transactions); err != nil {
-			viol("success-set-rejected-by-pool", "the transaction set returned by the successful call is not accepted by the transaction pool: "+err.Error(), map[string]any{"basis": res.Set.Basis, "transactions": len(res.Set.Transactions)})
+			// two classes: the returned set is a different transaction than the one
+			// the host committed and broadcast (ids differ), or it is that
+			// transaction with unusable witness data (basis, proofs, signatures)
+			sameID := false
+			if committed != nil && len(committed.Set.Transactions) > 0 && len(res.Set.Transactions) > 0 {
+				a, b := committed.Set.Transactions[len(committed.Set.Transactions)-1], res.Set.Transactions[len(res.Set.Transactions)-1]
+				sameID = a.ID() == b.ID()
+			}
+			d := map[string]any{"basis": res.Set.Basis, "transactions": len(res.Set.Transactions), "pool_error": err.Error()}
+			if sameID {
+				viol("success-set-witness-rejected-by-pool", "the successful call returned the host's transaction with a basis / proofs / signatures the transaction pool does not accept", d)
+			} else {
+				viol("success-set-not-the-committed-transaction", "the successful call returned a transaction set that is not the transaction the host committed, and the transaction pool does not accept it", d)
+			}
 		}
 	case committed != nil:
 		r.Count("host_committed_but_renter_saw_failure", 1)
